@@ -213,7 +213,7 @@ def check_object(R, fam, base, cls, args, bo, ptr, tail):
     try:
         back, n = base.decode(io.BytesIO(data), bo, ptr)
         if back != obj or type(back) is not type(obj) or n != len(enc):
-            ctx.violation("C14:roundtrip:" + cls.__name__, "decode(encode(x)) = %r consumed %d; x = %r, %d bytes" % (back, n, obj, len(enc)), case)
+            ctx.violation("C14:roundtrip:" + cls.__name__, "decode(encode(x)) = %s consumed %d; x = %s, %d bytes" % (repr(back)[:300], n, repr(obj)[:300], len(enc)), case)
         dec = {"obj": _obj_json(back), "k": n}
     except Exception as e:  # noqa: BLE001
         dec = {"err": _exc_name(e)}
@@ -412,14 +412,30 @@ def run(ctx):
         R.flush()
     # parse_cfi_instructions inverts concatenation
     base, classes = fams["cfi"]
-    for _ in range(ctx.budget(150, 3000)):
+    expr_classes = [c for c in classes if any(isinstance(e, cfimod._ExprEncoder) for _, e in c._fields_and_encoders())]
+    nparse = ctx.budget(150, 3000)
+    for it in range(nparse):
         insts = []
-        for _k in range(rng.randint(0, 6)):
+        # every instruction class that carries a nested expression gets, in turn, one of 128 bytes or more (a
+        # multi-byte length prefix), followed by further instructions
+        force_long = expr_classes[it % len(expr_classes)] if expr_classes and it < 4 * len(expr_classes) else None
+        for _k in range(rng.randint(2, 6) if force_long else rng.randint(0, 6)):
             for _try in range(20):
-                c = rng.choice(classes)
+                c = force_long if (force_long and _k == 0) else rng.choice(classes)
                 args = []
                 for f, e in c._fields_and_encoders():
                     if isinstance(e, cfimod._ExprEncoder):
+                        if force_long and _k == 0:
+                            long_expr, nbytes = [], 0
+                            while nbytes < 130:
+                                for o in _random_expr(rng, op_classes, small_pool, 6):
+                                    try:
+                                        nbytes += len(bytes(o.encode("little", 4)))
+                                        long_expr.append(o)
+                                    except ValueError:
+                                        pass        # an operand that does not fit a 4-byte pointer: leave it out
+                            args.append(long_expr)
+                            continue
                         args.append(_random_expr(rng, op_classes, small_pool))
                     else:
                         args.append(rng.choice(_field_values(e, rng, small_pool) or small_pool))
@@ -442,7 +458,7 @@ def run(ctx):
             back = list(cfimod.parse_cfi_instructions(data, bo, ptr))
             res = {"objs": [_obj_json(i) for i in back]}
             if back != insts:
-                ctx.violation("C14:parse-inverts-concat", "parse(concat(encode)) = %r, expected %r" % (back, insts), case)
+                ctx.violation("C14:parse-inverts-concat", "parse(concat(encode)) = %s, expected %s" % (repr(back)[:300], repr(insts)[:300]), case)
         except Exception as e:  # noqa: BLE001
             res = {"err": _exc_name(e)}
             ctx.violation("C14:parse-raises", "parse(concat(encode(%r))) raises %s" % (insts, res["err"]), case)
